@@ -1,6 +1,7 @@
 """C03 — convergence: the anchored string-level mechanisms are fixed points."""
 from mirsym import models_typst as T
-from . import kern, comments, lists, c19
+from . import kern, comments, lists, c19, mathargs, twopass
+from .common import validate_corpus
 
 EXPLANATION = (
     "Bounded symbolic execution (MIR->SMT, z3) of two of the three mechanisms the property is anchored in; the end-to-end statement "
@@ -28,6 +29,17 @@ def run(S):
     # one-line list layouts are fixed points (kept blank lines must not leave traces when the list is folded)
     f3 = lists.explore(S, 4 if S.tier == 'quick' else 5, want=('C03',), cats=('item', 'comma', 'space'), between_items=True)
     lists.report(S, 'C03', f3)
+    # math call arguments that come out on one line are laid out identically when read again
+    f5 = mathargs.explore(S, 3 if S.tier == 'quick' else 4, want=('C03',))
+    mathargs.report(S, 'C03', f5)
+    validate_corpus(S, 'mathargs-idempotence', f5, lambda: mathargs.confirm_fixed_point(S, None))
+    # two passes of the real printer over call arguments / arrays with comments and symbolic line breaks (nothing opaque)
+    if S.tier == 'quick':
+        f6 = twopass.explore(S, max_items=1, constructs=('call',), gaps=[(), ('sp',), ('blk',), ('sp', 'blk')], ws_alts=[' ', '\n', '\n\n\n\n'])
+    else:
+        f6 = twopass.explore(S, max_items=1, constructs=('call', 'array'))
+        f6 += twopass.explore(S, max_items=2, constructs=('call',), gaps=[(), ('sp',), ('blk',)], ws_alts=[' ', '\n', '\n\n\n\n'])
+    twopass.report(S, 'C03', f6)
     # with reordering on, the chosen order must not depend on spacing that formatting normalises
     f4 = c19.explore_spacing(S, 2 if S.tier == 'quick' else 3)
     groups = {}
